@@ -102,4 +102,64 @@ def r_derive_drop(toks):
         out.append(t); i += 1
     return out, n
 
-RULES = {"vis": r_vis, "static": r_static, "attr": r_attr, "mutfull": r_mutfull, "noderive": r_derive_drop}
+def _recv_start(toks, dot):
+    """index of the first token of the postfix-chain receiver that ends right before toks[dot] ('.')"""
+    i = dot - 1
+    while True:
+        t = toks[i]
+        if t.text in (")", "]"):
+            # find matching opener backwards
+            depth = 0; j = i
+            while True:
+                x = toks[j]
+                if x.kind == "punct":
+                    if x.text in ")]}": depth += 1
+                    elif x.text in "([{":
+                        depth -= 1
+                        if depth == 0: break
+                j -= 1
+            i = j
+            p = toks[i - 1]
+            if p.kind in ("ident",) or p.text in (")", "]"):
+                i -= 1; continue
+            return i
+        if t.kind in ("ident", "num", "str"):
+            p = toks[i - 1] if i > 0 else None
+            if p is not None and p.text == "." and not (toks[i - 2].text == "." and toks[i - 1].glued):
+                i -= 2; continue
+            if p is not None and p.text == ":" and toks[i - 2].text == ":":
+                i -= 3; continue
+            return i
+        return i + 1
+
+def _mk(text, ws, like):
+    return Tok(text, ws, "ident" if (text[0].isalpha() or text[0] == "_") else "punct", like.line)
+
+def r_be(toks):
+    """E.to_be_bytes() -> shim_to_be_u32(E);  uN::from_be_bytes(A[.try_into().unwrap()]) -> shim_from_be_uN(&A)"""
+    n = 0
+    changed = True
+    while changed:
+        changed = False
+        for i, t in enumerate(toks):
+            if t.kind == "ident" and t.text == "to_be_bytes" and toks[i - 1].text == "." and toks[i + 1].text == "(" and toks[i + 2].text == ")":
+                s = _recv_start(toks, i - 1)
+                recv = toks[s:i - 1]
+                ws = recv[0].ws; recv[0].ws = ""
+                new = [_mk("shim_to_be_u32", ws, t), _mk("(", "", t)] + recv + [_mk(")", "", t)]
+                toks[s:i + 3] = new; n += 1; changed = True; break
+            if (t.kind == "ident" and t.text == "from_be_bytes" and i >= 3 and toks[i - 1].text == ":" and toks[i - 2].text == ":"
+                    and toks[i - 3].text in ("u32", "u64") and toks[i + 1].text == "("):
+                ty = toks[i - 3].text
+                e = match_close(toks, i + 1)
+                args = toks[i + 2:e]
+                tail = [x.text for x in args[-8:]]
+                if tail == [".", "try_into", "(", ")", ".", "unwrap", "(", ")"]:
+                    args = args[:-8]
+                ws = toks[i - 3].ws
+                if args: args[0].ws = ""
+                new = [_mk("shim_from_be_" + ty, ws, t), _mk("(", "", t), _mk("&", "", t)] + args + [_mk(")", "", t)]
+                toks[i - 3:e + 1] = new; n += 1; changed = True; break
+    return toks, n
+
+RULES = {"be": r_be, "vis": r_vis, "static": r_static, "attr": r_attr, "mutfull": r_mutfull, "noderive": r_derive_drop}
